@@ -63,15 +63,17 @@ def c_formats(ctx, args):
 
 
 def c_index(ctx, args):
-    be, l, kind, ix = args
+    be, l, kind, ix = args[:4]
     if kind == 'int':
         return corr(ctx, be, 'get_int', [l, ix])
     if kind == 'slice':
         return corr(ctx, be, 'get_slice', [l, opt(ix[0]), opt(ix[1])], [l, ix[0], ix[1]])
     if kind == 'mask':
-        return corr(ctx, be, 'get_mask', [l, ix])
+        form = args[4] if len(args) > 4 else 'array'
+        return corr(ctx, be, 'get_mask', [l, ix], [l, ix, form] if be == 'np' else [l, ix])
     if kind == 'idx':
-        return corr(ctx, be, 'get_idx', [l, ix])
+        form = args[4] if len(args) > 4 else 'array'
+        return corr(ctx, be, 'get_idx', [l, ix], [l, ix, form] if be == 'np' else [l, ix])
     if kind == 'neg':
         return corr(ctx, be, 'list_neg', [l])
     if kind == 'rmul':
@@ -127,5 +129,8 @@ def run(ctx):
             ix = rng.randint(0, 3)
         else:
             ix = None
-        do(ctx, 'index', [be, l, kind, ix], nontrivial=(be, kind, str(l), str(ix)))
+        form = rng.choice(['array', 'pylist', 'npbool_list']) if kind == 'mask' else (rng.choice(['array', 'pylist', 'int32']) if kind == 'idx' else 'array')
+        do(ctx, 'index', [be, l, kind, ix, form], nontrivial=(be, kind, str(l), str(ix), form))
+        if kind in ('mask', 'idx'):
+            ctx.res.count('index_form_' + form)
         ctx.res.count('index_' + kind)
